@@ -75,16 +75,17 @@ def run(ctx, cases_override=None):
     # ---- MC: Impl (IsMatchBlock & co) = Doc for every configuration within the bounds x corpus x command x state
     mcs = []
     if th:
+        # every block with <=2 match conditions and <=1 ignore condition; every match-only block with <=3 conditions
         mcs.append(ctx.tlc("DispatchC09", "c09_mc.cfg", files={"c09_mc.cfg": cfg(1, 1, 1, 2, 1, False, MC_INV)},
-                           timeout=5400, allow_violation=True, workers=W))
+                           timeout=7200, allow_violation=True, workers=W))
         mcs.append(ctx.tlc("DispatchC09", "c09_mc2.cfg", files={"c09_mc2.cfg": cfg(1, 1, 0, 3, 0, False, "Inv_C09")},
-                           timeout=5400, allow_violation=True, workers=W))
+                           timeout=7200, allow_violation=True, workers=W))
     else:
-        mcs.append(ctx.tlc("DispatchC09", "c09_mc.cfg", files={"c09_mc.cfg": cfg(1, 1, 1, 1, 1, False, MC_INV)},
+        # every match-only block with <=2 conditions; every block with one ignore condition and no / an empty match
+        mcs.append(ctx.tlc("DispatchC09", "c09_mc.cfg", files={"c09_mc.cfg": cfg(1, 1, 0, 2, 0, True, MC_INV)},
                            timeout=3000, allow_violation=True, workers=W))
-    # regexps with a top-level alternation (documented as fully anchored)
-    mcs.append(ctx.tlc("DispatchC09", "c09_mca.cfg", files={"c09_mca.cfg": cfg(1, 1, 0, 1, 0, True, "Inv_C09")},
-                       timeout=3000, allow_violation=True, workers=W))
+        mcs.append(ctx.tlc("DispatchC09", "c09_mc2.cfg", files={"c09_mc2.cfg": cfg(1, 1, 1, 0, 1, True, MC_INV)},
+                           timeout=3000, allow_violation=True, workers=W))
     leads = [m["invariant_violated"] for m in mcs if m["invariant_violated"]]
     # ---- GEN
     head = None
@@ -93,7 +94,8 @@ def run(ctx, cases_override=None):
 
         def gen(name, text, **kw):
             nonlocal head
-            r = ctx.tlc("DispatchC09", name, files={name: text}, timeout=3000, workers=W, **kw)
+            # simulation: TLC's num is per worker, so the worker count is fixed to keep the case set a function of the seed
+            r = ctx.tlc("DispatchC09", name, files={name: text}, timeout=3000, workers=(4 if "simulate" in kw else W), **kw)
             cs = [v[0] for v in prints(r, "CASE")]
             if not cs:
                 raise MachineryError("GEN %s produced no cases" % name)
@@ -101,14 +103,13 @@ def run(ctx, cases_override=None):
                 head = prints(r, "CORPUS")[0][0]
             return cs
         if th:
-            cases += gen("c09_gen0.cfg", cfg(1, 1, 1, 1, 1, False, "EmitCase"))            # every (<=1 cond, <=1 cond) block
-            cases += gen("c09_gen1.cfg", cfg(1, 1, 0, 2, 0, False, "EmitCase"))            # every match-only pair
-            cases += gen("c09_gen2.cfg", cfg(1, 1, 1, 1, 1, True, "EmitCase"))             # with alternations
-            cases += gen("c09_gen3.cfg", cfg(3, 2, 2, 3, 3, False, "EmitCase"), simulate=4000, depth=80)
+            cases += gen("c09_gen0.cfg", cfg(1, 1, 1, 1, 1, True, "EmitCase"))             # every (<=1 cond, <=1 cond) block
+            cases += gen("c09_gen1.cfg", cfg(1, 1, 0, 2, 0, True, "EmitCase"))             # every match-only pair
+            cases += gen("c09_gen3.cfg", cfg(3, 2, 2, 3, 3, True, "EmitCase"), simulate=500, depth=80)
         else:
             cases += gen("c09_gen0.cfg", cfg(1, 1, 0, 1, 0, True, "EmitCase"))             # single match condition (all atoms)
             cases += gen("c09_gen1.cfg", cfg(1, 0, 1, 0, 1, True, "EmitCase"))             # single ignore condition
-            cases += gen("c09_gen2.cfg", cfg(3, 2, 2, 3, 3, False, "EmitCase"), simulate=450, depth=80)
+            cases += gen("c09_gen2.cfg", cfg(3, 2, 2, 3, 3, True, "EmitCase"), simulate=60, depth=80)
         seen, uniq = set(), []
         for c in cases:
             k = json.dumps(c, sort_keys=True)
